@@ -32,6 +32,7 @@ type Violation struct {
 	Decisions []int          `json:"decisions"`
 	Confirmed string         `json:"confirmed,omitempty"`
 	Known     string         `json:"known,omitempty"`
+	Threads   bool           `json:"threads,omitempty"` // the path ran several goroutines: native replay retries schedules
 	ReplayPath string        `json:"replay_path,omitempty"`
 }
 
@@ -50,6 +51,16 @@ type pathState struct {
 	stubs       map[string]bool
 	named       map[string]*Term
 	observations []string
+}
+
+// noteRand registers an environment-chosen value as an input so that it shows up in counterexamples.
+func (p *pathState) noteRand(v *Term) {
+	kind := "float64"
+	if v.S.K == SBV {
+		kind = "int64"
+	}
+	p.inputSorts[v.Name] = v.S
+	p.inputs = append(p.inputs, inputSym{Name: v.Name, Sort: v.S, Kind: kind})
 }
 
 func (p *pathState) strBudget() int { return p.strBudgetV + 16 }
@@ -319,6 +330,7 @@ func (p *pathState) recordViolation(label, kind, detail string, model map[string
 	v := Violation{
 		Harness: p.w.eng.curHarness.Func, Label: label, Kind: kind, Detail: detail,
 		Inputs: in, Decisions: append([]int{}, p.decisions...),
+		Threads: p.w.m.sch != nil && len(p.w.m.sch.gs) > 1,
 	}
 	p.w.eng.addViolation(v)
 }
